@@ -113,6 +113,7 @@ def build_jobs(spec, tier, known, solver):
                 "makeslice_max": h.get("makeslice_max", 0),
                 "inject_failures": h.get("inject_failures", False),
                 "natural_models": h.get("natural_models", False),
+                "preempt_sends": h.get("preempt_sends", False),
                 "_fp_confirm": h.get("fp_confirm", False),
                 "_fp_seconds": h.get("fp_seconds", 300),
                 "max_seconds": h.get("max_seconds_" + tier, h.get("max_seconds", 600 if tier == "quick" else 7200)),
